@@ -178,3 +178,16 @@ Fixpoint join_lines (ls : list (list Z)) (final : bool) : list Z :=
 
 Definition doc_spec (g : list Z -> list Z) (d : list Z) : list Z :=
   join_lines (map g (doc_lines d)) (ends_nl d).
+
+(* ---------- children with memory ----------
+   A child that writes exactly one line for every line it reads, but may compute the i-th answer
+   from everything it has seen (numbering, context, ...): given by its answer function on the
+   list of all lines, [A ls] with as many entries as ls. *)
+Definition stream_of (A : list (list Z) -> list (list Z)) (child_in : list Z) : list Z :=
+  unrecords 10 (A (records 10 false child_in)).
+
+(* output document k = the answer lines at the positions of document k's lines, joined by LF,
+   final LF iff document k had one *)
+Definition docs_spec_stream (A : list (list Z) -> list (list Z)) (docs : list (list Z)) : list (list Z) :=
+  map (fun ds => join_lines (snd ds) (ends_nl (fst ds)))
+      (combine docs (chunks (map (fun d => length (doc_lines d)) docs) (A (concat (map doc_lines docs))))).
